@@ -526,7 +526,9 @@ class Polyhedron(Shape3D):
         if centered:
             simplices -= self.center
 
-        volumes = np.abs(np.linalg.det(simplices) / 6)
+        # Signed volumes: tetrahedra on the far side of a non-star-shaped solid
+        # must enter with a negative sign.
+        volumes = np.linalg.det(simplices) / 6
 
         def triangle_integrate(f):
             r"""Integrate f over the simplices.
